@@ -389,6 +389,10 @@ class Runner:
                 except Exception:
                     ctr.inc('mutation_ill_typed_dropped')
                     return
+                vs = dict(vs)
+                for v in t2.get_vars():
+                    if v.name not in vs:
+                        vs[v.name] = v.T
                 d.pool.append((t2, vs))
                 ctr.inc('mutated_terms')
                 self.roundtrip(seq, d, t2, vs, op)
@@ -404,15 +408,18 @@ class Runner:
             if T != BoolType:
                 return
             hyps = []
-            if d.pool:
-                h, hv = d.pool[op['b'] % len(d.pool)]
+            for j in range(op['b'] % 4):
+                if not d.pool:
+                    break
+                h, hv = d.pool[(op['b'] // 4 + j * 7) % len(d.pool)]
                 try:
-                    if h.checked_get_type() == BoolType and all(hv.get(n, vs.get(n)) == vs.get(n, hv.get(n)) for n in set(hv) & set(vs)):
-                        hyps = [h]
+                    if h.checked_get_type() == BoolType and h not in hyps and h != t and \
+                            all(str(hv[n]) == str(vs[n]) for n in set(hv) & set(vs)):
+                        hyps.append(h)
                         vs = dict(hv, **vs)
-                        self.ensure_ctx(vs)
                 except Exception:
                     pass
+            self.ensure_ctx(vs)
             th = Thm(t, *hyps)
 
             def attempt():
@@ -636,8 +643,41 @@ def shape_of(t):
 def mutate(t, rng):
     """type-preserving mutation: swap two closed sub-terms of the same type, re-associate an operator,
     or rename a bound variable to clash with a free name"""
-    from kernel.term import Comb, Abs
-    k = rng.randrange(3)
+    from kernel.term import Comb, Abs, Var
+    k = rng.randrange(4)
+    if k == 3:
+        # a binder-like constant applied to something that is not a lambda: replace one closed abstraction
+        # by a free variable of its type (collect P, all P, ...)
+        lams = []
+
+        def find(x, path):
+            if x.is_abs() and not x.is_open():
+                lams.append((path, x))
+            if x.is_comb():
+                find(x.fun, path + (0,))
+                find(x.arg, path + (1,))
+            elif x.is_abs():
+                find(x.body, path + (2,))
+        find(t, ())
+        if not lams:
+            return None
+        path, lam = rng.pick(lams)
+        try:
+            T = lam.get_type()
+        except Exception:
+            return None
+        used = set(v.name for v in t.get_vars())
+        nm = [n for n in ('PP', 'QQ', 'RR') if n not in used][0]
+
+        def put0(x, path, repl):
+            if not path:
+                return repl
+            if path[0] == 0:
+                return Comb(put0(x.fun, path[1:], repl), x.arg)
+            if path[0] == 1:
+                return Comb(x.fun, put0(x.arg, path[1:], repl))
+            return Abs(x.var_name, x.var_T, put0(x.body, path[1:], repl))
+        return put0(t, path, Var(nm, T))
     if k == 2:
         frees = sorted(v.name for v in t.get_vars())
 
